@@ -397,6 +397,45 @@ def initIterator (w : WProg) (srv : Srv) : InitReply × Srv :=
     | .ok _ => (.accepted, r.2)        -- (prefetching itself is the subject of C15)
     | .error x => (.raised x, r.2)
 
+/-! ## Calls in flight
+
+Handlers run on the transport's server threads, so a request is not atomic with respect to other
+requests and to the shutdown request.  What matters to the protocol is *when the handler looks at the
+shutdown flag*: in the `except` clause, i.e. at the moment the evaluation fails (courier_server.py:217),
+not when the request arrives.  The handler is therefore two steps — `start` (the request has arrived and
+is being evaluated, possibly blocked) and `finish` (the evaluation ends and the reply is built from the
+state *at that moment*) — and other steps may happen in between. -/
+
+inductive Step where
+  | start (id : Nat) (rq : Request)
+  | finish (id : Nat)
+  /-- `_request_shutdown` (signal, `shutdown` method, `stop()`) -/
+  | shutdown
+  /-- one task of the server's thread pool -/
+  | bg
+  deriving Repr
+
+structure Sys where
+  srv : Srv
+  /-- requests whose handler has started and not finished -/
+  inflight : List (Nat × Request) := []
+  /-- replies sent, in order -/
+  replies : List (Nat × Reply) := []
+  deriving Repr
+
+def Sys.step (s : Sys) : Step → Sys
+  | .start id rq => { s with inflight := s.inflight ++ [(id, rq)] }
+  | .finish id =>
+    match s.inflight.lookup id with
+    | none => s
+    | some rq =>
+      let r := handle rq s.srv
+      { srv := r.2, inflight := s.inflight.filter (fun p => p.1 != id), replies := s.replies ++ [(id, r.1)] }
+  | .shutdown => { s with srv := requestShutdown s.srv }
+  | .bg => { s with srv := runBg s.srv }
+
+def Sys.run (s : Sys) (steps : List Step) : Sys := steps.foldl Sys.step s
+
 /-! ## The client `CourierClient.get_result` (courier_utils.py:659-683) -/
 
 /-- What the transport does with one call (the courier contract; mirrored by the fake's fault plan). -/
